@@ -397,6 +397,202 @@ def rule_rewalk_normalized(ctx):
     rule_norm_route(ctx, only=("score::<impl Matcher>::calculate_score",), floor=1)
 
 
+GREEDY = "fuzzy_greedy::<impl Matcher>::fuzzy_match_greedy_"
+
+
+def rule_greedy_disjoint(ctx):
+    """Greedy matcher: the needle character at `start` is consumed by needle[0]; the forward scan that looks for
+    needle[1..] must therefore begin behind it.  Where the scan begins at the caller-supplied `end`, every call site of a
+    non-ASCII instantiation must pass `end >= start + 1` (followed through callers that forward their own parameter).
+    Otherwise one haystack character can serve two needle characters (needle "aab"), the window [start, end) is too
+    short for the needle and the re-walk reports a truncated index list with Some(score)."""
+    from cfg import poly_of, Poly
+    from props.c11 import for_loops
+    from common import iter_pipeline
+    facts = ctx.facts
+    fn = get_fn(facts, M, GREEDY)
+    names = {fn.names.get(l): l for l in range(1, fn.arg_count + 1)}
+    if not all(k in names for k in ("haystack", "needle", "start", "end")):
+        raise Inconclusive("fuzzy_match_greedy_: parameters haystack/needle/start/end not found")
+    P_START, P_END = names["start"], names["end"]
+
+    def is_param(x, l):
+        x = strip_casts(x)
+        while x[0] in ("ref", "deref"):
+            x = strip_casts(x[1])
+        return x[0] == "arg" and x[1] == l
+
+    def from_needle_tail(e):
+        """iterator over needle[1..] ?"""
+        for x in walk(e):
+            if x[0] == "call" and str(x[1]).endswith("::index") and is_param(x[2][0], names["needle"]):
+                r = x[2][1]
+                if r[0] == "agg" and str(r[1]).endswith("RangeFrom::RangeFrom") and isinstance(r[2], dict) and tuple(strip_casts(r[2].get("start", ("?",)))[:2]) == ("const", 1):
+                    return True
+        return False
+    fwd = []
+    for h, body, nxt in for_loops(fn):
+        if nxt is None:
+            continue
+        inner_next = [bi for bi in body if bi != nxt[0] and fn.blocks[bi]["term"]["k"] == "call" and callee(fn.blocks[bi]["term"]).endswith("::next")
+                      and from_needle_tail(fn.expr_of_operand(fn.blocks[bi]["term"]["args"][0]))]
+        if not inner_next:
+            continue
+        src = fn.expr_of_operand(fn.blocks[nxt[0]]["term"]["args"][0])
+        rng = [x for x in walk(src) if x[0] == "call" and str(x[1]).endswith("::index") and is_param(x[2][0], names["haystack"])]
+        if len(rng) != 1:
+            raise Inconclusive("fuzzy_match_greedy_: forward scan does not iterate over one sub-slice of the haystack")
+        r = rng[0][2][1]
+        if not (r[0] == "agg" and isinstance(r[2], dict) and "start" in r[2]):
+            raise Inconclusive("fuzzy_match_greedy_: forward scan range %s" % show(r)[:80])
+        fwd.append((h, r[2]["start"]))
+    ctx.floor("forward scans for needle[1..] in the greedy matcher", len(fwd), 1)
+
+    def atom(x):
+        if is_param(x, P_START):
+            return "S"
+        if is_param(x, P_END):
+            return "E"
+        return None
+
+    def unchecked(e):
+        if not isinstance(e, tuple) or not e:
+            return e
+        if e[0] == "field" and isinstance(e[1], tuple) and e[1] and e[1][0] == "checked" and e[2] == "0":
+            return ("bin", e[1][1], unchecked(e[1][2]), unchecked(e[1][3]))
+        return tuple(unchecked(x) if isinstance(x, tuple) else x for x in e)
+
+    def candidates(e, at, depth=0):
+        """values the expression can have when the loop at `at` is entered (reaching definitions of its locals)"""
+        e = unchecked(strip_casts(e))
+        if e[0] in ("local", "arg") and depth < 4 and not (e[0] == "arg" and len(fn.defs.get(e[1], [])) <= 1):
+            out = []
+            for _, _, d in fn.def_exprs(e[1], at=at):
+                d = unchecked(strip_casts(d))
+                if d[0] == "arg" and d[1] == e[1]:
+                    out.append(d)
+                else:
+                    out += candidates(d, at, depth + 1)
+            return out
+        if e[0] == "bin" and e[1] in ("Add", "Sub"):
+            return [("bin", e[1], a, b) for a in candidates(e[2], at, depth + 1) for b in candidates(e[3], at, depth + 1)]
+        return [e]
+    need_contract = False
+    for h, x in fwd:
+        for c in candidates(x, h):
+            pl = poly_of(c, atom)
+            d = pl - Poly.atom("S")
+            if not d.atoms() and not pl.has_opaque():
+                k = int(d.t.get((), 0))
+                if k >= 1:
+                    ctx.ok(site(fn, h), "forward scan starts at start + %d: behind the character consumed by needle[0]" % k)
+                else:
+                    ctx.violation(GREEDY + "|forward-scan|start", site(fn, h),
+                                  "the forward scan for needle[1..] starts at start + %d, i.e. on the character that needle[0] has already consumed: with needle[0] == needle[1] "
+                                  "(\"aab\") one haystack character serves both, the window is too short for the needle and Some(score) is returned with a truncated index list" % k)
+            elif not (pl - Poly.atom("E")).atoms() and not pl.has_opaque() and int((pl - Poly.atom("E")).t.get((), 0)) >= 0:
+                need_contract = True
+            else:
+                raise Inconclusive("fuzzy_match_greedy_: forward scan starts at %s" % show(c)[:100])
+    if not need_contract:
+        return
+    # contract `end >= start + 1` at the call sites (non-ASCII instantiations; the scan is compiled out for ASCII x ASCII
+    # when it is guarded by the ASCII constants)
+    guarded = all(any("ASCII" in show(g[3]) for g in guards_of(fn, h)) for h, _ in fwd)
+
+    def pair_gap_ok(path):
+        """Does `path` return Some((a, b)) only with b >= a + 1 (literally, or behind a `b - a < needle.len()` ⇒ None test)?"""
+        from cfg import decision_paths
+        b = facts.body(M, path)
+        if b is None:
+            return False
+        g = fn_of(b)
+
+        def opaque(x):
+            x = strip_casts(x)
+            if x[0] in ("bin", "checked") and x[1] in ("Add", "Sub", "Mul"):
+                return None
+            if x[0] == "const" and isinstance(x[1], int):
+                return None
+            if x[0] == "field" and isinstance(x[1], tuple) and x[1] and x[1][0] == "checked":
+                return None
+            return "v:" + repr(x)
+        try:
+            paths = decision_paths(g)
+        except Inconclusive:
+            return False
+        n_some = 0
+        for conds, res in paths:
+            if res is None or not (res[0] == "agg" and str(res[1]).endswith("Option::Some")):
+                continue
+            tup = strip_casts(res[2].get("0"))
+            if tup[0] != "tuple" or len(tup[1]) != 2:
+                return False
+            n_some += 1
+            gap = poly_of(unchecked(tup[1][1]), opaque) - poly_of(unchecked(tup[1][0]), opaque)
+            if not gap.atoms() and int(gap.t.get((), 0)) >= 1:
+                continue
+            okp = False
+            for d, chosen, allv in conds:
+                d = unchecked(strip_casts(d))
+                if d[0] == "bin" and d[1] == "Lt" and chosen == 0:
+                    lhs = poly_of(d[2], opaque)
+                    rhs = strip_casts(d[3])
+                    if (lhs - gap).t == {} or all(v == 0 for v in (lhs - gap).t.values()):
+                        if rhs[0] == "call" and str(rhs[1]).endswith("::len") and "needle" in show(rhs):
+                            okp = True       # gap >= needle.len() >= 1 (empty needles never get here: C01.entry-order)
+            if not okp:
+                return False
+        return n_some > 0
+
+    def check_site(f2, bi, t, si, ei, depth):
+        fa = [str(x) for x in (t.get("fn_args") or [])]
+        both_ascii = len(fa) >= 3 and fa[-2].endswith("AsciiChar") and fa[-1].endswith("AsciiChar")
+        if both_ascii and guarded:
+            ctx.ok(site(f2, bi), "ASCII x ASCII instantiation: forward scan compiled out, `end` comes from prefilter_ascii")
+            return
+        s_e = strip_casts(f2.expr_of_operand(t["args"][si]))
+        e_e = strip_casts(f2.expr_of_operand(t["args"][ei]))
+
+        def at2(x):
+            return "S" if repr(strip_casts(x)) == repr(s_e) else None
+        d = poly_of(e_e, at2) - Poly.atom("S")
+        if not d.atoms() and not d.has_opaque():
+            k = int(d.t.get((), 0))
+            if k >= 1:
+                ctx.ok(site(f2, bi), "call passes end = start + %d" % k)
+            else:
+                ctx.violation("%s|greedy-end|%s" % (f2.path, callee(t).rsplit("::", 1)[1]), site(f2, bi),
+                              "non-ASCII call passes end = start + %d: the greedy forward scan then starts on the character needle[0] has consumed" % k)
+            return
+        # prefilter_ascii(..) = (start, greedy_end, end) with greedy_end >= start + 1 by construction
+        if s_e[0] == "field" and e_e[0] == "field" and repr(s_e[1]) == repr(e_e[1]) and s_e[2] == "0" and e_e[2] in ("1", "2") and "prefilter_ascii" in show(s_e[1]):
+            ctx.ok(site(f2, bi), "(start, end) are components 0 and %s of one prefilter_ascii result (end > start by construction)" % e_e[2])
+            return
+        # two components of one call result whose callee returns (a, b) with b > a on every Some path
+        if s_e[0] == "field" and e_e[0] == "field" and s_e[2] == "0" and e_e[2] == "1":
+            b0, b1 = s_e[1], e_e[1]
+            same = repr(b0) == repr(b1)
+            src = [x for x in walk(b0) if x[0] == "call" and not str(x[1]).endswith("Try>::branch")]
+            if same and src and pair_gap_ok(str(src[0][1])):
+                ctx.ok(site(f2, bi), "(start, end) are the two components of one %s result, which returns end > start on every Some path" % str(src[0][1]).rsplit("::", 1)[1])
+                return
+        # forwarded parameters of the caller
+        if s_e[0] == "arg" and e_e[0] == "arg" and depth < 3:
+            n = 0
+            for f3, b3, t3 in calls_to(facts, M, lambda t_: callee(t_) == f2.path):
+                n += 1
+                check_site(f3, b3, t3, s_e[1] - 1, e_e[1] - 1, depth + 1)
+            if n:
+                return
+        raise Inconclusive("%s: cannot relate the `end` argument %s to `start` %s" % (f2.path, show(e_e)[:80], show(s_e)[:80]))
+    n = 0
+    for f2, bi, t in calls_to(facts, M, lambda t_: callee(t_) == GREEDY):
+        n += 1
+        check_site(f2, bi, t, P_START - 1, P_END - 1, 0)
+    ctx.floor("call sites of fuzzy_match_greedy_", n, 4)
+
+
 def rules(ctx):
     ctx.run_rule("C02.rewalk-normalized", rule_rewalk_normalized)
     ctx.run_rule("C02.backpointers", rule_backpointers)
@@ -405,3 +601,4 @@ def rules(ctx):
     ctx.run_rule("C02.indices-guard", rule_indices_guard)
     ctx.run_rule("C02.twins", rule_twins)
     ctx.run_rule("C02.one-per-char", rule_one_per_char)
+    ctx.run_rule("C02.greedy-disjoint", rule_greedy_disjoint)
